@@ -217,7 +217,7 @@ def run(ctx):
     ctx.extra["direct_acquisitions"] = sum(len(v) for v in L.direct.values())
     ctx.extra["order_edges"] = {"%s->%s[%s]" % k: len(v) for k, v in sorted(L.edges.items())}
     ctx.extra["thread_roles"] = {r: len(fs) for r, fs in role_fns.items()}
-    ctx.floor("R17.1", "direct Mutex acquisitions", ctx.extra["direct_acquisitions"], 90)
+    ctx.floor("R17.1", "direct Mutex acquisitions", ctx.extra["direct_acquisitions"], {"default": 90, "minimal": 85, "all": 90})
     ctx.floor("R17.1", "session-thread role functions", len(role_fns.get("session", ())), 300)
     ctx.floor("R17.1", "timer role functions", len(role_fns.get("timer", ())), 5)
 
@@ -451,7 +451,7 @@ def run(ctx):
                 continue
             ctx.ob("R17.2", key, False, w["where"], "%s acquired while %s is held, without ptr_eq / try_lock guard: %s" % (
                 c, x, " -> ".join(w["chain"])))
-    ctx.floor("R17.2", "same-class nesting sites examined", sum(counts.values()), 10)
+    ctx.floor("R17.2", "same-class nesting sites examined", sum(counts.values()), {"default": 10, "minimal": 8, "all": 10})
 
     # ---------------------------------------------------------------- R17.3 blocking under a lock
     ctx.rule("R17.3", "no blocking wait (channel recv, thread join, sleep, network or file I/O, XML parsing) while a platform lock is held, "
